@@ -324,6 +324,52 @@ def corr_mul(run, cases):
     return b.flush(split="|")
 
 
+def corr_rotM(run, cases, rotors, preps):
+    """the matrix route of Wigner.rotate (the default strategy) from the source — generated `Wigner.D` body + generated `_rotate` with the
+    contraction as a left fold — against the real call.  BLAS does not fix the order of summation, so the comparison is numerical
+    (a small multiple of eps times the row's norm), not bitwise.  cases: [(L, ellmin, s, ellMaxModes, weights)]"""
+    import spherical
+    import quaternionic
+    h = helpers()
+    lines, exp, meta = [], [], []
+    for (L, ellmin, s, eM, f) in cases:
+        w = spherical.Wigner(L, ellmin)
+        modes = spherical.Modes(np.array(f, dtype=complex), spin_weight=s, ell_min=0, ell_max=eM)
+        fa = modes.ndarray
+        for lab, R in rotors:
+            p = preps.get(R)
+            if p is None:
+                continue
+            v = w.rotate(modes, quaternionic.array(R)).ndarray
+            za, zg = p["za_rot"], p["zg_rot"]
+            lines.append(f"genrotM {L} {ellmin} {s} {eM} {' '.join(fbits(x) for x in R)} {fbits(za.real)} {fbits(za.imag)} {fbits(h['imsqrt'](za))} "
+                         f"{fbits(zg.real)} {fbits(zg.imag)} {fbits(h['imsqrt'](zg))} " + cx_tokens(fa))
+            exp.append(np.asarray(v))
+            meta.append(({"L": L, "ell_min": ellmin, "s": s, "ell_max_modes": eM, "R": R, "stratum": lab, "model": "generated"}, lab, float(np.linalg.norm(fa))))
+    if not lines:
+        return []
+    out = run.driver(lines)
+    if out is None:
+        run.corr_break("corr:rotate-matrix-generated-kernel", "driver failed")
+        return [m for m, _, _ in meta]
+    bad = []
+    for line, o, e, (m, lab, nrm) in zip(lines, out, exp, meta):
+        toks = parse_bits(o) if o not in ("raised", "bad-op") else None
+        ok = False
+        if toks is not None and len(toks) == 2 * e.size:
+            got = np.array([complex(tofloat(toks[2 * i]), tofloat(toks[2 * i + 1])) for i in range(e.size)])
+            lo = abs(m["s"]) ** 2
+            dev = float(np.max(np.abs(got[lo:] - e[lo:]))) if e.size > lo else 0.0
+            ok = dev <= 64 * (m["ell_max_modes"] + 2) * 2.0 ** -52 * max(nrm, 1e-300)
+            m = {**m, "max_abs_dev": dev}
+        run.corr_case("rotate-matrix-generated-kernel", line[:300], lab, m if ok else None)
+        if not ok:
+            bad.append(m)
+            if len(bad) <= 3:
+                run.corr_break("corr:rotate-matrix-generated-kernel", {"case": m})
+    return bad
+
+
 def corr_w3j(run, cases, poison=3.5):
     """cases: [(j2max, j3max, j2, j3, m2, m3)] -> compares Wigner3jCalculator(j2max,j3max).calculate(j2,j3,m2,m3)"""
     import spherical
